@@ -12,6 +12,7 @@ import (
 	"sort"
 	"strings"
 	"sync"
+	"time"
 
 	"verif/vk"
 
@@ -68,22 +69,35 @@ func variantClass(ps []pert, v variant) string {
 }
 
 func evalVariant(base *types.Block, ps []pert, v variant, sizes []int) (res varResult) {
-	defer func() {
-		if e := recover(); e != nil {
-			res.panic = fmt.Sprint(e)
-		}
-	}()
 	b := clone(base)
-	for _, i := range v.perts {
-		if !ps[i].apply(b) {
-			return
+	applied := true
+	if panicked, val := vk.Catch(func() {
+		for _, i := range v.perts {
+			if !ps[i].apply(b) {
+				applied = false
+				return
+			}
 		}
+		res.dump = dumpHash(b)
+	}); panicked {
+		vk.Fatalf("perturbation %s panics in the harness: %v", variantName(ps, v), val)
+	}
+	if !applied {
+		return
+	}
+	// only the code under test runs under the recovering wrapper
+	if panicked, val := vk.Catch(func() {
+		if v.refill {
+			refill(b)
+		}
+		res.ident = identOf(b, sizes)
+	}); panicked {
+		res.panic = fmt.Sprint(val)
+		return
 	}
 	if v.refill {
-		refill(b)
+		res.dump = dumpHash(b) // the recomputed header fields are content too
 	}
-	res.dump = dumpHash(b)
-	res.ident = identOf(b, sizes)
 	res.ok = true
 	return
 }
@@ -117,13 +131,14 @@ func checkIdentity(r *vk.Run, c blockCfg, sizes []int, pairs bool, st *identStat
 	}
 
 	var vars []variant
-	for i := range ps {
-		vars = append(vars, variant{perts: []int{i}})
-		if ps[i].body {
-			vars = append(vars, variant{perts: []int{i}, refill: true})
+	if !pairs {
+		for i := range ps {
+			vars = append(vars, variant{perts: []int{i}})
+			if ps[i].body {
+				vars = append(vars, variant{perts: []int{i}, refill: true})
+			}
 		}
-	}
-	if pairs {
+	} else {
 		for i := range ps {
 			for j := i + 1; j < len(ps); j++ {
 				vars = append(vars, variant{perts: []int{i, j}})
@@ -247,6 +262,9 @@ func checkIdentity(r *vk.Run, c blockCfg, sizes []int, pairs bool, st *identStat
 		}
 	}
 	local.distinctIDs = len(distinct)
+	if !pairs {
+		crossCheck(r, c, ps, vars, results, sizes, baseDump, baseID)
+	}
 	mu.Lock()
 	st.variants += local.variants
 	st.notApplicable += local.notApplicable
@@ -261,4 +279,66 @@ func checkIdentity(r *vk.Run, c blockCfg, sizes []int, pairs bool, st *identStat
 		}
 	}
 	mu.Unlock()
+}
+
+// ---- across base blocks, and the bytes validators sign ---------------------------------------------
+
+type globalOwner struct {
+	dump [32]byte
+	desc string
+}
+
+var (
+	globalMu    sync.Mutex
+	globalIDs   = map[string]globalOwner{} // (part size, id) -> content, over ALL base blocks (single perturbations)
+	signOwners  = map[string]string{}      // Vote.SignBytes -> id
+	signedKeys  = map[string]bool{}        // ids whose sign-bytes were computed (an id can arise under two part sizes)
+	signedIDs   int
+	signedBytes int
+)
+
+// signBytesFor: the bytes a validator signs when it precommits the block with this id.
+func signBytesFor(id types.BlockID) string {
+	v := &types.Vote{ValidatorAddress: valKeys[0].PubKey().Address(), ValidatorIndex: 0, ValidatorSize: 4, Height: 1, Round: 0,
+		Timestamp: time.Unix(1500000000, 0).UTC(), Type: types.VoteTypePrecommit, BlockID: id}
+	return string(v.SignBytes(chainID))
+}
+
+// crossCheck: (1) no two blocks with different content share an id, across base blocks as well; (2) the
+// vote sign-bytes are injective over all ids enumerated: what a validator signs pins the id, hence the content.
+func crossCheck(r *vk.Run, c blockCfg, ps []pert, vars []variant, results []varResult, sizes []int, baseDump [32]byte, baseID blockIdent) {
+	globalMu.Lock()
+	defer globalMu.Unlock()
+	one := func(desc string, d [32]byte, id blockIdent, rep interface{}) {
+		for k, sz := range sizes {
+			bid := types.BlockID{Hash: id.hash, PartsHeader: id.parts[k]}
+			key := fmt.Sprintf("%s|%s", id.hash.String(), pshKey(id.parts[k]))
+			gk := fmt.Sprintf("%d|%s", sz, key)
+			if o, ok := globalIDs[gk]; ok {
+				if o.dump != d {
+					r.Violation("identity-collision:across-base-blocks", fmt.Sprintf("part size %d: [%s] and [%s] are different blocks with one id", sz, desc, o.desc), rep)
+				}
+			} else {
+				globalIDs[gk] = globalOwner{d, desc}
+			}
+			signedKeys[key] = true
+			sb := signBytesFor(bid)
+			if o, ok := signOwners[sb]; ok {
+				if o != key {
+					r.Violation("vote-signbytes-collision", fmt.Sprintf("block ids %s and %s give the same Vote.SignBytes: %s", o, key, sb), rep)
+				}
+			} else {
+				signOwners[sb] = key
+				signedBytes++
+			}
+			signedIDs++
+		}
+	}
+	one(fmt.Sprintf("%v unchanged", c), baseDump, baseID, map[string]interface{}{"phase": "identity", "block": c, "perturbations": []string{}, "part_sizes": sizes})
+	for i, res := range results {
+		if !res.ok || res.panic != "" {
+			continue
+		}
+		one(fmt.Sprintf("%v: %s", c, variantName(ps, vars[i])), res.dump, res.ident, replayIdentity(c, ps, vars[i], sizes))
+	}
 }
